@@ -306,6 +306,13 @@ static std::string virtual_op(const ak::ContentPtr& arr, const JV& o) {
   if (k == "num") return "{\"ok\":1,\"text\":" + jstr(observe(arr->num(geti(o, "axis", 1), 0))) + "}";
   if (k == "carry") { ak::Index64 ix = mkindex64(need(o, "index")); return "{\"ok\":1,\"text\":" + jstr(observe(arr->carry(ix, false))) + "}"; }
   if (k == "validity") return "{\"ok\":1,\"text\":" + jstr(first_line(arr->validityerror("layout"))) + "}";
+  if (k == "slice_json") {            // x[(a:b,)] through getitem(Slice): bounds may be negative or absent (99999 = absent)
+    int64_t a = geti(o, "a", 99999), b = geti(o, "b", 99999);
+    ak::Slice sl;
+    sl.append(std::make_shared<ak::SliceRange>(a == 99999 ? ak::Slice::none() : a, b == 99999 ? ak::Slice::none() : b, 1));
+    sl.become_sealed();
+    return "{\"ok\":1,\"text\":" + jstr(observe(arr->getitem(sl))) + "}";
+  }
   if (k == "depths" || k == "slice_depths" || k == "slice_sum") {
     ak::ContentPtr r = arr;
     if (k != "depths") {              // one-item slices that a VirtualArray answers with a lazier VirtualArray
